@@ -515,7 +515,7 @@ def add_simple(b, rng, code=None):
     arg = rng.choice(TEXTS) if takes is True else (rng.choice([None, rng.choice(TEXTS)]) if takes is None else None)
     if verb == b"SITE" and arg == b"HELP":
         arg = b"CHMOD 644 f"
-    b.simple(verb, arg, code, multi=(rng.random() < 0.15))
+    b.simple(verb, arg, code, multi=(rng.random() < 0.3))
 
 
 def add_transfer(b, rng, dist, **kw):
@@ -687,7 +687,11 @@ def fam_abor(rng, n, dist):
     out = []
     shapes = [("in-progress", dict(first=426, second=226), False), ("in-progress-225", dict(first=426, second=225), False),
               ("already-complete", dict(first=226, second=None), True), ("abor-refused", dict(first=502, second=None), False),
-              ("abor-225-only", dict(first=225, second=None), False)]
+              ("abor-225-only", dict(first=225, second=None), False),
+              # one negative reply is all the server has to say about it (the transfer is dropped without a word); or the
+              # server takes its leave
+              ("abor-502-only", dict(first=502, second=None), False), ("abor-500-only", dict(first=500, second=None), False),
+              ("abor-421", dict(first=421, second=None), False)]
     for i in range(n):
         name, ab, ff = shapes[i % len(shapes)]
         b = S.Builder(rng, *rng.choice(ALL_METHODS), type=rng.choice("IIA"))
@@ -713,10 +717,19 @@ def fam_abor(rng, n, dist):
             b.exp[ci]["replies"] = b.exp[ci]["replies"] + [done]
         else:
             big = [bytes([65 + k % 26]) * 8192 for k in range(4)]
-            b.transfer(kind, b"big.bin", payload_segs=big + [b"z" * 200000], chunks=big * 3, cb=cb, abor=ab)
-        b.simple(b"NOOP", None, 200)
-        b.simple(b"PWD", None, 257)
-        b.disconnect(True)
+            ci = b.transfer(kind, b"big.bin", payload_segs=big + [b"z" * 200000], chunks=big * 3, cb=cb, abor=ab)
+            if name == "abor-421" and ci in b.xfer_map:
+                si, ri = b.xfer_map[ci]
+                b.sessions[si]["reactions"][ri + 1]["close_after"] = True
+                b.connected = False
+                b.exp[ci]["open_after"] = False
+        if b.connected:
+            b.simple(b"NOOP", None, 200)
+            b.simple(b"PWD", None, 257)
+            b.disconnect(True)
+        else:
+            b.failing(("S", b"NOOP", None), cmds=[])
+            b.disconnect(False)
         dist.add("abor:" + name)
         out.append(b.scenario(abor_shape=name))
     return out
@@ -1117,11 +1130,25 @@ def fam_cancel(rng, n, dist):
         if at == "never":
             b.transfer(kind, b"f", payload_segs=total, chunks=total, cb=cb)
         else:
-            b.transfer(kind, b"f", payload_segs=total + [b"z" * 300000], chunks=total + [b"z" * 8192] * 2, cb=cb,
-                       abor=dict(first=426, second=226))
+            # what the server has to say about ABOR: 426 + a closing reply; one positive reply; one negative reply and
+            # nothing else (the transfer dropped without a word); or its leave (421)
+            ab = [dict(first=426, second=226), dict(first=426, second=226), dict(first=426, second=225), dict(first=225, second=None),
+                  dict(first=226, second=None), dict(first=502, second=None), dict(first=500, second=None),
+                  dict(first=550, second=None), dict(first=421, second=None)][(i // 2) % 9]
+            ci = b.transfer(kind, b"f", payload_segs=total + [b"z" * 300000], chunks=total + [b"z" * 8192] * 2, cb=cb, abor=ab)
+            dist.add("cancel:abor-answered-%s%s" % (ab["first"], "+%d" % ab["second"] if ab["second"] else ""))
+            if ab["first"] == 421 and ci in b.xfer_map:
+                si, ri = b.xfer_map[ci]
+                b.sessions[si]["reactions"][ri + 1]["close_after"] = True
+                b.connected = False
+                b.exp[ci]["open_after"] = False
         dist.add("cancel:%s:%s:at-%s:block-%d" % (kind, typ, at, blk))
-        b.simple(b"NOOP", None, 200)
-        b.disconnect(True)
+        if b.connected:
+            b.simple(b"NOOP", None, 200)
+            b.disconnect(True)
+        else:
+            b.failing(("S", b"NOOP", None), cmds=[])
+            b.disconnect(False)
         out.append(b.scenario())
     return out
 
@@ -1283,19 +1310,29 @@ def fam_reconnect(rng, n, dist, tls_share=0.4):
     """connect / operations / end of session / connect again: the next session must start clean"""
     out = []
     endings = ["quit", "drop", "421", "peer-close", "leftover", "failed-handshake", "mid-transfer-failure", "peer-reset",
-               "421-then-connect", "connect-over", "421-multiline", "peer-reset-unnoticed", "peer-close-unnoticed"]
+               "421-then-connect", "connect-over", "421-multiline", "peer-reset-unnoticed", "peer-close-unnoticed",
+               # a 421 wherever a reply is read - not only as the first answer to a command
+               "421-greeting", "421-after-120-greeting", "421-completion", "421-after-120-rein"]
     for i in range(n):
         tls = rng.random() < tls_share
         ending = endings[i % len(endings)]
         if ending == "failed-handshake" and not tls:
             tls = True
+        if ending in ("421-completion", "421-after-120-rein"):
+            tls = False          # (under TLS the closing that follows a 421 may itself be reported: kept to the command case)
         mode, rfc = rng.choice(ALL_METHODS)
         b = S.Builder(rng, mode, rfc, type="I", tls=tls, resume=rng.random() < 0.5, tlsver="12", verify="trusted")
         if rng.random() < 0.3:
             b.add_observer(1)
-        b.connect(login=(b"u", b"p"), tls_ok=(ending != "failed-handshake"))
+        if ending in ("421-greeting", "421-after-120-greeting"):
+            b.connect(login=(b"u", b"p"), greeting=((421,) if ending == "421-greeting" else (120, 421)))
+        else:
+            b.connect(login=(b"u", b"p"), tls_ok=(ending != "failed-handshake"))
         dist.add("reconnect:%s:%s" % ("tls" if tls else "plain", ending))
-        if ending == "failed-handshake":
+        if ending in ("421-greeting", "421-after-120-greeting"):
+            if rng.random() < 0.5:
+                b.disconnect(False)
+        elif ending == "failed-handshake":
             b.disconnect(False)
         else:
             for _ in range(rng.randrange(0, 3)):
@@ -1317,6 +1354,21 @@ def fam_reconnect(rng, n, dist, tls_share=0.4):
                 b.simple(b"NOOP", None, 421)           # the library has closed by itself: the caller connects again at once
             elif ending == "connect-over":
                 pass                                   # connect() on a client that is still connected
+            elif ending == "421-completion":
+                # the transfer is accepted and carried out; what the server says at its end is 421
+                k = rng.choice(["D", "U", "F"])
+                b.transfer(k, b"f" if k != "F" else None, payload_segs=[b"x" * rng.choice([0, 10, 9000])], chunks=[b"y" * 100],
+                           done_code=421, completion=rng.choice(["now", "on_close"]))
+                b.connected = False
+                b.exp[-1]["open_after"] = False
+                if rng.random() < 0.5:
+                    b.disconnect(False)
+            elif ending == "421-after-120-rein":
+                b.logout(codes=(120, 421))
+                b.connected = False
+                b.exp[-1]["open_after"] = False
+                if rng.random() < 0.5:
+                    b.disconnect(False)
             elif ending == "peer-close":
                 b.simple(b"NOOP", None, 200, close_after=True)
                 b.failing(("S", b"PWD", None), cmds=[], cmds_may_be_lost=True)
@@ -1377,10 +1429,15 @@ def fam_reuse(rng, n, dist):
     out = []
     for i in range(n):
         mode, rfc = ALL_METHODS[i % 4]
-        b = S.Builder(rng, mode, rfc, type="I", tls=True, resume=(i % 3 != 2), tlsver=("12" if i % 5 else "13"), verify="trusted")
+        b = S.Builder(rng, mode, rfc, type="I", tls=True, resume=(i % 3 != 2), tlsver=(("12" if i % 2 else "12n") if i % 5 else "13"), verify="trusted")
+        # ("12n": a TLS 1.2 server that issues no tickets - sessions are resumed by their id from the server's cache)
         b.connect(login=(b"u", b"p"))
         ntr = rng.randrange(1, 6)
         cancel_at = rng.randrange(0, ntr) if rng.random() < 0.4 else None
+        if b.cfg["tlsver"] == "12n":
+            # (a server that keeps its sessions in a cache drops a session whose connection ended without close-notify -
+            # OpenSSL's ssl_clear_bad_session: what follows a cancelled transfer is then the server's doing, not the client's)
+            cancel_at = None
         for k in range(ntr):
             if k == cancel_at:
                 # a transfer cancelled by the callback (closed without the graceful shutdown): the ones that follow must
